@@ -175,7 +175,7 @@ def check(pm: ProgramModel, ctx: Ctx) -> None:
     if ex is None or gr is None or init is None:
         raise AnalysisError(rule, "anchor vanished: FMEstimatedConfigurationsNumber.execute/get_result")
     it = Interp(pm)
-    it.native[top.qual] = lambda fm_: ("COUNT", fm_)
+    it.native[top.qual] = it.signature_stub(top, lambda fm_, *r: ("COUNT", fm_))
     op = AObj("FMEstimatedConfigurationsNumber")
     fm1 = mb.model(mb.feature("R1"))
     try:
